@@ -4280,6 +4280,13 @@ class Macro:
                 MacroArgumentKind.MATCH: ("regex", "end_expr", "concat_expr", "string_const", "string_case_const", "binary_regex", "binary_string_const"),
                 MacroArgumentKind.INTEXPR: ("string_const", "bool_const", "number_const", "char_const", "identifier_const", *all_sum_expr_nodes)
             }[argspec.kind]
+            if argspec.kind in (MacroArgumentKind.MATCH, MacroArgumentKind.INTEXPR) and value.data == "identifier_const":
+                # Passing one of the calling macro's own match/expr arguments through: substitute it now, while the name still
+                # refers to the caller's argument (inside the callee the same name may be bound to the callee's own argument)
+                try:
+                    value = parse_ctx._lookup_named_entity(MacroArgumentKind.EXPR, value.children[0])
+                except UndefinedReferenceError:
+                    pass
             if value.data not in allowed_types:
                 raise IllegalParseTree("Invalid argument type for argument " + argspec.name, value)
             if argspec.should_early_bind():
